@@ -4,7 +4,8 @@ TLC (simulation) emits behaviours whose every step carries the expected projecti
 engine replays them on prolly.MutableMap / prolly.Map under several bindings (filler sizes, payload sizes)."""
 LEVEL = "model_checking"
 
-BINDINGS_Q = [{"filler": 0, "paysz": 0}, {"filler": 40, "paysz": 30}, {"filler": 700, "paysz": 200}]
+BINDINGS_Q = [{"filler": 0, "paysz": 0}, {"filler": 40, "paysz": 30}, {"filler": 700, "paysz": 200},
+              {"filler": 900, "paysz": 100, "noabove": True}]
 BINDINGS_T = BINDINGS_Q + [{"filler": 6000, "paysz": 60}, {"filler": 150, "paysz": 3000}]
 
 
